@@ -58,3 +58,17 @@ def run_read(text):
     except Exception as exc:  # the outcome is part of the observation
         return empty_obs(outcome_of(exc)), None
     return project_cg_graph(g), g
+
+
+def run_strip(text):
+    """strip_bonding_descriptors(text) -> observation."""
+    from cgsmiles.read_fragments import strip_bonding_descriptors
+    try:
+        with quiet():
+            clean, desc, ez, ann = strip_bonding_descriptors(text)
+    except Exception as exc:
+        return {"outcome": outcome_of(exc), "clean": "", "desc": [], "ann": [], "ez": []}
+    return {"outcome": "ok", "clean": clean,
+            "desc": [[int(k), [str(x) for x in v]] for k, v in sorted(desc.items())],
+            "ann": [[int(k), attr_pairs(v)] for k, v in sorted(ann.items())],
+            "ez": [[int(k), str(v)] for k, v in sorted(ez.items())]}
